@@ -264,6 +264,10 @@ impl Builder<AllTerms> {
         parent_id: I,
         child_id: J,
     ) -> HpoResult<()> {
+        // both terms must exist before either of them is modified
+        if self.hpo_terms.get(child_id.into()).is_none() {
+            return Err(HpoError::DoesNotExist);
+        }
         let parent = self
             .hpo_terms
             .get_mut(parent_id.into())
@@ -490,6 +494,10 @@ impl Builder<ConnectedTerms> {
         gene_name: &str,
         term_id: HpoTermId,
     ) -> HpoResult<()> {
+        // the term must exist before the record is created or modified
+        if self.hpo_terms.get(term_id).is_none() {
+            return Err(HpoError::DoesNotExist);
+        }
         self.add_gene(gene_name, gene_id);
         let gene = self
             .genes
@@ -549,6 +557,10 @@ impl Builder<ConnectedTerms> {
         omim_name: &str,
         term_id: HpoTermId,
     ) -> HpoResult<()> {
+        // the term must exist before the record is created or modified
+        if self.hpo_terms.get(term_id).is_none() {
+            return Err(HpoError::DoesNotExist);
+        }
         self.add_omim_disease(omim_name, omim_id);
         let gene = self
             .omim_diseases
@@ -609,6 +621,10 @@ impl Builder<ConnectedTerms> {
         orpha_name: &str,
         term_id: HpoTermId,
     ) -> HpoResult<()> {
+        // the term must exist before the record is created or modified
+        if self.hpo_terms.get(term_id).is_none() {
+            return Err(HpoError::DoesNotExist);
+        }
         self.add_orpha_disease(orpha_name, orpha_id);
         let gene = self
             .orpha_diseases
